@@ -12,6 +12,9 @@ From Borno Require Import Cli.
 From Borno Require Import EvalSafeDefs.
 From Borno Require Import EvalSafe.
 From Borno Require Import EvalSafeCrash.
+From Borno Require Import FlagEval.
+From Borno Require Import FlagCli.
+From Borno Require Import FlagSafe.
 
 (** the initial store is well-formed *)
 Theorem C07_wf_init :
@@ -115,3 +118,13 @@ Theorem C07_text_in_acyclic :
          forall v : value, text_of s v <> TCycle.
 Proof. exact (@text_in_acyclic). Qed.
 Print Assumptions C07_text_in_acyclic.
+
+(** the flag-level evaluator (which carries on with nil after an error, as the Go code does) never follows a dangling scope or cell either *)
+Theorem C07_frun_source_never_stuck :
+  forall (libm : N -> f64 -> f64 -> f64) (clock : f64)
+           (sched : N -> list (list N * value) -> list (list N * value)),
+         (forall (n : N) (l : list (list N * value)) (x : list N * value), In x (sched n l) -> In x l) ->
+         forall (fuel : nat) (repl : bool) (src stdin : list N),
+         frun_source libm clock sched fuel repl src stdin <> FRStuck.
+Proof. exact (@frun_source_never_stuck). Qed.
+Print Assumptions C07_frun_source_never_stuck.
